@@ -21,7 +21,11 @@ EXTRA = ["#define MAGIC 0x1234\n#define NAME \"hello\"\n#define NEG -5\n", "enum
          "flag FL : uint16 { FL_A = 1, FL_B = 2 };\n", "struct holder { struct inner_named { uint8 z; } inn; struct { uint8 y; } anon_in; struct inner_arr { uint8 v; } arr[2]; char name[8]; wchar w[2]; uint48 big; };\n",
          "typedef struct { uint16 px; uint16 py; } POINT, COORD, *PPOINT_UNUSED;\n".replace(", *PPOINT_UNUSED", ""),
          "union un { uint32 a; uint8 b[4]; };\n", "#define FLOAT 1.5\n#define TUP (1, 2)\n",
-         "struct grid { struct { uint8 x; uint8 y; } cells[2][3]; union { uint8 lo; uint16 w; } cu[2][2]; struct cell_named { uint8 q; } named[3][1][2]; };\n"]
+         "struct grid { struct { uint8 x; uint8 y; } cells[2][3]; union { uint8 lo; uint16 w; } cu[2][2]; struct cell_named { uint8 q; } named[3][1][2]; };\n",
+         "struct pp { uint8 **argv; uint16 ***deep; char **names[2]; };\n", "typedef uint32 VEC[4];\nstruct pv { VEC *vec; VEC arr2[2]; };\n",
+         "typedef uint32 C4[4];\ntypedef uint32 D4[4];\ntypedef uint8 *P8;\ntypedef uint8 *Q8;\n", "struct ga { uint8 a; };\nstruct gb { ga x[4]; ga *p; ga y; ga m[2][2]; };\n",
+         "struct pa { struct { uint8 a; } *x; struct { uint8 b; } *parr[2]; union { uint8 c; uint16 d; } *u; };\n",
+         "typedef struct { uint8 k; } tk_t, tk2_t;\nstruct uses_tk { tk2_t one; tk_t many[3]; tk2_t *ptr; };\n"]
 
 
 def expected_hint_leaf(t):
@@ -119,6 +123,19 @@ def check(run: Run) -> None:
         def check_struct(T, node, path):
             anns = {x.target.id: x.annotation for x in node.body if isinstance(x, ast.AnnAssign) and isinstance(x.target, ast.Name)}
             inner = {x.name: x for x in node.body if isinstance(x, ast.ClassDef)}
+            # a class nested in a structure's stub stands for a member type that exists only there (an anonymous or inline structure): a type the
+            # cstruct object provides under its own name is referred to, not declared again
+            member_types = set()
+            for f0 in T.fields.values():
+                b0 = f0.type
+                while issubclass(b0, (BaseArray, Pointer)):
+                    b0 = b0.type
+                member_types.add(b0.__name__)
+            for iname in inner:
+                if iname in user_types or iname in builtin_types:
+                    probs.append({"what": f"nested class {path}.{iname} re-declares a type the cstruct object provides at top level", "observed": iname})
+                elif iname not in member_types:
+                    probs.append({"what": f"nested class {path}.{iname} is not the type of any member", "observed": iname})
             for fname, f in T.fields.items():
                 if fname not in anns:
                     probs.append({"what": f"field {path}.{fname} has no annotation"})
